@@ -438,6 +438,8 @@ class Interp(object):
         self.abstract_locals = {}       # (function, local name) -> atom: let-abstraction of an intermediate
         self.local_defs = {}            # atom -> [(value, path conds, line)] recorded definitions (own obligation)
         self.generic_concrete = set()   # names of loop variables whose concrete ranges are executed generically
+        self.div_conds = []             # side conditions added by executed divisions (kept alive; identified by id())
+        self.slot_always = set()        # names of COO slot counters that may be restarted from a constant
 
     # -- modules ------------------------------------------------------------
     def module(self, name):
@@ -481,7 +483,14 @@ class Interp(object):
             if self.path is None:
                 self.path = Path([])
             try:
-                for st in m.pyx.tree.body:
+                def flat(pm):
+                    # ``include`` is textual: the included definitions come first, in the same namespace
+                    for sub in pm.included:
+                        for st in flat(sub):
+                            yield st
+                    for st in pm.tree.body:
+                        yield st
+                for st in flat(m.pyx):
                     if isinstance(st, ast.FunctionDef):
                         f = Func(st, m, m.name + '.' + st.name, m.pyx.ctypes.get(st.name, {}))
                         f.defaults = [self.eval(d, fr) for d in st.args.defaults]
@@ -832,6 +841,12 @@ class Interp(object):
         # C integer division for declared ints in .pyx (cdivision)
         if isinstance(s.op, ast.Div) and isinstance(t, ast.Name) and fr.ctypes.get(t.id) in ('int', 'long'):
             new = self.c_intdiv(cur, rhs, s)
+        elif isinstance(t, ast.Name) and t.id in self.slot_always and isinstance(s.op, ast.Add) and isinstance(rhs, int) and rhs == 1 \
+                and (isinstance(cur, (int, Poison)) or hasattr(cur, 'seq')):
+            # slot counter that is (re)started from a constant (c = -1): every advance is a fresh slot token
+            from . import kernel as _kernel
+            _kernel.COUNTER[0] += 1
+            new = _kernel.Slot(_kernel.COUNTER[0], tuple(g.var for g in self.generic), list(self.path.conds))
         elif self.generic and isinstance(t, ast.Name) and (isinstance(cur, Poison) or hasattr(cur, 'seq')):
             new = self.generic[-1].carried(self, t.id, s, rhs, fr)
         elif hasattr(cur, 'oid') and hasattr(cur, 'term'):
@@ -1421,6 +1436,9 @@ class Interp(object):
                 if isinstance(a, P) or isinstance(b, P):
                     a = a if isinstance(a, P) else P.const(a)
                     if isinstance(b, P) and not b.is_const():
+                        if isinstance(a, P) and a.is_const() and a.const_value() == -1:
+                            from . import trig as _trig
+                            return _trig.sgn(b)
                         raise CheckerError('line %d: symbolic exponent' % node.lineno)
                     ex = b.const_value() if isinstance(b, P) else b
                     if isinstance(ex, Fraction) and ex.denominator == 1:
@@ -1469,6 +1487,7 @@ class Interp(object):
                                           self.trace_calls[-1] if self.trace_calls else '<module>'))
             # the division was executed, so on the rest of this path the divisor is non-zero
             self.path.conds.append(nz)
+            self.div_conds.append(nz)
         a = a if isinstance(a, P) else (P.const(a) if not hasattr(a, '__truediv__') or isinstance(a, (int, Fraction)) else a)
         return a / b
 
